@@ -137,6 +137,19 @@ def coq_make(targets, timeout=1500, jobs=16):
     return rc == 0, out, dt
 
 
+def coqchk(pid, timeout=2400):
+    """Independent re-check of Properties/<pid>.vo and everything it depends on with coqchk; returns
+    (ok, axioms line, tail of the output)."""
+    with Lock("coq"):
+        rc, out, dt = sh(["coqchk", "-silent", "-o", "-Q", ".", "Mysync", "Mysync.Properties.%s" % pid], cwd=COQ, timeout=timeout)
+    m = re.search(r"\* Axioms:\s*(.*?)\n\s*\n", out, flags=re.S)
+    axioms = m.group(1).strip() if m else None
+    clean = rc == 0 and axioms == "<none>" and all(
+        re.search(r"\* %s:\s*<none>" % re.escape(k), out) for k in
+        ("Constants/Inductives relying on type-in-type", "Constants/Inductives relying on unsafe (co)fixpoints", "Inductives whose positivity is assumed"))
+    return clean, axioms, out[-1500:], dt
+
+
 def coq_check_properties(pid, timeout=1500):
     """Build everything Properties/<pid>.v needs, then re-check that file and
     collect `Print Assumptions` output.  Returns dict."""
